@@ -276,7 +276,9 @@ def run(tier, seed):
     # full depth-1 slice under the light option sets
     names = ('S45', 'Sjson', 'Ssim', 'S44') if tier == 'quick' else tuple(sorted(S))
     total_pairs = len(slice_items)
-    for n in names:
+    # threshold family: payload sizes around the cut-offs of the differ and of the renderer (base64 payloads longer than 64 characters are snipped)
+    thr = tuple('Sthr#%d' % n for n in ((9, 10, 63, 64, 65, 1000) if tier == 'quick' else (9, 10, 11, 63, 64, 65, 999, 1000, 1001)))
+    for n in names + thr:
         sd, d1 = M.depth1(n)
         items = [(l, t, sd, x) for l, t, x in d1]
         total_pairs += len(items)
@@ -309,7 +311,7 @@ def run(tier, seed):
         evaluations=ev, distinct_nontrivial=ctx.counters['nontrivial'],
         states=total_pairs + len(triples), transitions=ev, traces_validated=ev, exhaustive=True,
         bounds={'tier': tier, 'full_option_sets': len(full_opts), 'light_option_sets': len(light_opts), 'slice_pairs': len(slice_items),
-                'depth1_seeds': list(names), 'decision_lists': len(triples)},
+                'depth1_seeds': list(names + thr), 'decision_lists': len(triples)},
         assumptions=['renderer availability is controlled through PATH (nbdime calls shutil.which at render time)',
                      'the "prints something" clause is only demanded when the edit lies in categories that are all shown, structural edits only when nothing is ignored'],
     )
